@@ -104,6 +104,14 @@ def run(ctx):
              "1,2,3 x output lengths; independent key1/key2 sizes for the retail MAC; unknown paddings and bad key sizes; "
              "oracle = single-block OpenSSL ECB with hand chaining (ISO 9797-1 algorithms 1 and 3); "
              "non-trivial = distinct successful calls")
+    from fractions import Fraction
+    for pad_ in (1.5, 2.25, 3.999, 0.5, 2.0000001, Fraction(7, 2), Fraction(3, 2), float("nan"), float("inf"), 1 + 0.5j, "2", b"\x02", None, [1], (2,)):
+        for fn, args in (("generate_cbc_mac", (rng.randbytes(16), b"abcdefgh", pad_, None, False)), ("generate_retail_mac", (rng.randbytes(8), rng.randbytes(8), b"abcdefgh", pad_, None))):
+            out = core.impl_call(fn, args)
+            res["evaluations"] += 1
+            if out[0] == "OK" or out[1] not in ("ValueError", "Other:TypeError"):
+                res["violations"].append({"what": "a padding selector that is not one of the integers 1, 2, 3 was not rejected", "expected": "ValueError",
+                                          "observed": list(out), "input": {"fn": fn, "padding": repr(pad_)}})
     for fn, args in neg:       # negative padding numbers: outside the model's typed domain, implementation only
         out = core.impl_call(fn, args)
         v = check_impl(fn, args, out)
